@@ -103,6 +103,8 @@ pub enum MapOp {
     IntoIter(IntoKind, usize, bool),
     Iter(IterKind, i32, Vec<Cmd>),
     CloneTo(usize),
+    /// `dst.clone_from(&self)` (same capacity; otherwise treated as `dst = self.clone()`)
+    CloneFrom(usize),
     Eq(usize),
     FromIter(bool, Vec<(K, V)>),
     Entry(K, Vec<i32>, EntryEnd),
@@ -131,6 +133,8 @@ pub enum SetOp {
     IntoIter(usize, bool),
     Iter(Vec<Cmd>),
     CloneTo(usize),
+    /// `dst.clone_from(&self)` (same capacity; otherwise treated as `dst = self.clone()`)
+    CloneFrom(usize),
     Eq(usize),
     FromIter(bool, Vec<K>),
     Extend(bool, Vec<K>),
@@ -321,10 +325,11 @@ fn map_op(a: &[&str]) -> Option<MapOp> {
             MapOp::Iter(kind, n.parse().ok()?, script(s)?)
         }
         ["clone", d] => MapOp::CloneTo(mreg(d)?),
+        ["clone_from", d] => MapOp::CloneFrom(mreg(d)?),
         ["serde", d] => MapOp::Serde(mreg(d)?),
         ["eq", o] => MapOp::Eq(mreg(o)?),
         ["from_iter", p, xs] => {
-            crate::ctl::with(|c| c.lie_hint = *p == "2");
+            crate::ctl::with(|c| c.hint_mode = p.parse().unwrap_or(0));
             MapOp::FromIter(*p != "0", pairs(xs)?)
         }
         ["entry", k, mods, fin] => {
@@ -364,14 +369,15 @@ fn set_op(a: &[&str]) -> Option<SetOp> {
         ["into_iter", t, e] => SetOp::IntoIter(t.parse().ok()?, end(e)?),
         ["iter", s] => SetOp::Iter(script(s)?),
         ["clone", d] => SetOp::CloneTo(sreg(d)?),
+        ["clone_from", d] => SetOp::CloneFrom(sreg(d)?),
         ["serde", d] => SetOp::Serde(sreg(d)?),
         ["eq", o] => SetOp::Eq(sreg(o)?),
         ["from_iter", p, xs] => {
-            crate::ctl::with(|c| c.lie_hint = *p == "2");
+            crate::ctl::with(|c| c.hint_mode = p.parse().unwrap_or(0));
             SetOp::FromIter(*p != "0", keys(xs)?)
         }
         ["extend", p, xs] => {
-            crate::ctl::with(|c| c.lie_hint = *p == "2");
+            crate::ctl::with(|c| c.hint_mode = p.parse().unwrap_or(0));
             SetOp::Extend(*p != "0", keys(xs)?)
         }
         ["alg", kind, o, s] => {
